@@ -228,18 +228,21 @@ def jobs_c05(tier, seed):
 def jobs_c08(tier, seed):
     f = ["c08"]
     names = [
-        ("never_one_cheap_op", "AutoStream::never: any one operation from {write_all, write_fmt, flush} with a symbolic <=2-byte payload vs StripStream"),
-        ("new_never_one_cheap_op", "AutoStream::new(.., Never): same"),
-        ("never_state_carried_across_calls", "AutoStream::never: write_all ending inside an escape sequence, then write_all of any 2 bytes, vs StripStream"),
-        ("never_one_write_op", "AutoStream::never: one write / write_vectored with a symbolic <=1-byte first slice vs StripStream"),
-        ("new_never_one_write_op", "AutoStream::new(.., Never): same"),
-        ("always_ansi_two_ops", "AutoStream::always_ansi: any two operations, bytes forwarded unchanged"),
+        ("never_write", "AutoStream::never: one write() of a symbolic <=1-byte buffer vs StripStream"),
+        ("never_write_all", "AutoStream::never: one write_all() of a symbolic <=2-byte buffer vs StripStream"),
+        ("never_write_vectored", "AutoStream::never: one write_vectored() (<=1 byte, 1 byte) vs StripStream"),
+        ("never_write_fmt", "AutoStream::never: one formatted write of two 1-byte fragments vs StripStream"),
+        ("never_flush", "AutoStream::never: flush"),
+        ("new_never_write_all", "AutoStream::new(.., Never): one write_all() of a symbolic <=2-byte buffer vs StripStream"),
+        ("new_never_write_fmt", "AutoStream::new(.., Never): one formatted write vs StripStream"),
+        ("never_state_carried_across_calls", "AutoStream::never: write_all ending inside an escape sequence, then write_all of any byte"),
+        ("always_ansi_two_ops", "AutoStream::always_ansi: any two operations (kinds symbolic), bytes forwarded unchanged"),
         ("always_two_ops", "AutoStream::always (non-Windows): same"),
         ("new_always_ansi_two_ops", "AutoStream::new(.., AlwaysAnsi): same"),
         ("new_always_two_ops", "AutoStream::new(.., Always): same"),
-        ("vec_into_inner", "owned Vec<u8>: into_inner returns all bytes delivered (2-byte write_all, both modes)"),
+        ("vec_into_inner", "owned Vec<u8>: into_inner returns all bytes delivered (1-byte write_all, both modes)"),
     ]
-    return [J(f"c08::{n}", features=f, timeout_s=2400, mem_gb=16, bound=b) for n, b in names]
+    return [J(f"c08::{n}", features=f, timeout_s=1800, mem_gb=20, expect_gb=5, bound=b) for n, b in names]
 
 
 def jobs_c09(tier, seed):
@@ -539,7 +542,7 @@ REGISTRY = {
         "jobs": jobs_c08,
         "level": "model_checking",
         "functions": ["anstream::AutoStream::{new, never, always, always_ansi, into_inner, current_choice} and its io::Write impl over &mut dyn Write and Vec<u8>", "anstream::StripStream (oracle for Never)"],
-        "bounds": {"quick": "pass-through: every sequence of 2 write-family operations (kind symbolic among write/write_all/write_vectored/write_fmt/flush), payloads <=2 bytes; Never: every single operation (write_all, write_fmt, flush with <=2 bytes; write / write_vectored with <=1-byte first slice) and a two-call sequence cut inside an escape sequence, each against a StripStream fed the same operations", "thorough": "same"},
+        "bounds": {"quick": "pass-through: every sequence of 2 write-family operations (kind symbolic among write/write_all/write_vectored/write_fmt/flush), payloads <=2 bytes; Never: every single operation, one query per kind (write_all, write_fmt, flush with <=2 bytes; write / write_vectored with <=1-byte first slice) and a two-call sequence cut inside an escape sequence, each against a StripStream fed the same operations", "thorough": "same"},
         "outside": "longer operation sequences and payloads; files and boxed writers (same generic code); ColorChoice::Auto is C09; Windows arms",
         "assumptions": ["Never is compared with a StripStream fed the same operations (C01/C06 tie the strip stream to the model)"],
     },
